@@ -2,8 +2,9 @@
 """Prints the prompt given to an independent sub-agent that seeds property-breaking changes (nothing from /verif but the property text)."""
 import json, sys
 pid = sys.argv[1]
+round2 = len(sys.argv) > 2
 p = [json.loads(l) for l in open('/verif/properties.jsonl') if json.loads(l)['id'] == pid][0]
-wt = '/tmp/seed_%s' % pid
+wt = '/tmp/seed%s_%s' % ('2' if len(sys.argv) > 2 else '', pid)
 print(f"""You are helping to evaluate a verification framework by producing realistic, subtle bugs ("seeded changes") in an open-source Python project. The project is vermouth-martinize (Martinize2: converts atomistic molecular structures to coarse-grained topologies), a git repository at /repo.
 
 STRICT RULES
